@@ -264,7 +264,13 @@ Definition entry (sel : Z) (toks : list Z) : list Z :=
          | Some i =>
              if vq_defined i
              then match heap_sort (vq_less_b i) (q_tasks i) with
-                  | Some out => tag 1 ++ eList eZ (map vt_uid out)
+                  | Some out =>
+                      tag 1 ++ eList eZ (map vt_uid out) ++
+                      (* the less function itself on all ordered pairs of different
+                         victims (the harness reads less(a, b) off the pop order of the
+                         two-victim queue [b, a]); 0 on the diagonal by convention *)
+                      tag 2 ++ eMatB (q_tasks i)
+                                 (fun l r => if i_id (vt_item l) =? i_id (vt_item r) then false else vq_less_b i l r)
                   | None => model_error
                   end
              else [-1]
@@ -355,8 +361,9 @@ Definition entry (sel : Z) (toks : list Z) : list Z :=
            | Some (mode, before, o, r, after) =>
                eBool (law_heap_step (heap_less mode) (negb (mode =? 1)) before o r after)
            | None => bad_input end
-  | 108 => match run_dec (let* i := dVQ in let* out := dList dZ in ret (i, out)) toks with
-           | Some (i, out) =>
+  | 108 => match run_dec (let* i := dVQ in let* out := dList dZ in let* t2 := dZ in
+                          let* lm := dMat (length (q_tasks i)) in ret (i, out, lm)) toks with
+           | Some (i, out, lm) =>
                (* the returned uids name victims of the input; compare them as tasks *)
                let find_t (u : Z) := find (fun t => vt_uid t =? u) (q_tasks i) in
                let outs := flat_map (fun u => match find_t u with Some t => [t] | None => [] end) out in
@@ -367,9 +374,20 @@ Definition entry (sel : Z) (toks : list Z) : list Z :=
                let hyp := layout_valid_b tits (q_tts i) && layout_valid_b jits (q_jts i) &&
                           layout_valid_b (q_queues i) (q_qts i) &&
                           layout_valid_b (q_queues i) (force_en_all (q_vts i)) && uniform_idx tits in
+               let lmt (a b : vtask) := lm (vt_item a) (vt_item b) in
+               let distinct (a b : vtask) := negb (i_id (vt_item a) =? i_id (vt_item b)) in
+               let ts := q_tasks i in
                eBool (vq_defined i &&
                       same_multiset out (map vt_uid (q_tasks i)) &&
-                      implb hyp (law_sorted (vq_less_b i) outs))
+                      implb hyp
+                        (law_sorted (vq_less_b i) outs && law_sorted lmt outs &&
+                         (* the implementation's own less answers: exactly one direction on
+                            two different victims, transitive on all triples of different victims *)
+                         forallb (fun a => forallb (fun b =>
+                            implb (distinct a b) (Bool.eqb (lmt a b) (negb (lmt b a)))) ts) ts &&
+                         forallb (fun a => forallb (fun b => forallb (fun d =>
+                            implb (distinct a b && distinct b d && distinct a d && lmt a b && lmt b d)
+                                  (lmt a d)) ts) ts) ts))
            | None => bad_input end
   | _ => bad_input
   end.
